@@ -10,7 +10,7 @@ DEFAULT_SEED = 20260928
 REAL_TIME = time.time            # captured before any run patches the clocks
 REAL_MONO = time.monotonic
 
-class RunTimeout(Exception):
+class RunTimeout(BaseException):
     pass
 
 def _alarm(signum, frame):
